@@ -108,4 +108,16 @@ example : Cleanup.anonSymbolHoist (.elem 1 (svgTag "symbol") [] [.elem 2 (svgTag
     = [.elem 2 (svgTag "linearGradient") [("id", "g")] []] := by
   simp [Cleanup.anonSymbolHoist, Cleanup.gradsOfList, Cleanup.gradsOf, Cleanup.isGradientTag, svgTag, Attrs.has]
 
+/-- C14 (anonymous symbols, whole documents): on every document in which no id-less symbol has a gradient below it,
+    `remove_anonymous_symbols` as the code does it since de121e8 *is* the per-element pass `removeAnonSymbols` the theorems
+    above are about (gradients elsewhere, e.g. in defs, are no obstacle) -/
+theorem remove_anonymous_symbols_is_the_pass (root : Node) (h : Cleanup.symbolsGradFreeList root.children = true) :
+    Cleanup.removeAnonSymbolsH root = Cleanup.removeAnonSymbols root := Cleanup.removeAnonSymbolsH_eq root h
+
+example : Cleanup.symbolsGradFreeList
+    [.elem 1 (svgTag "defs") [] [.elem 2 (svgTag "linearGradient") [("id", "g")] []],
+     .elem 3 (svgTag "symbol") [] [.elem 4 (svgTag "rect") [] []]] = true := by
+  simp [Cleanup.symbolsGradFreeList, Cleanup.symbolsGradFree, Cleanup.gradFreeList, Cleanup.gradFree, Cleanup.isAnonSymbol,
+    Cleanup.isGradientTag, svgTag, Attrs.has]
+
 end PicoSVG.C14
